@@ -502,6 +502,16 @@ pub fn run_c16(ctx: &mut Ctx) {
         let barrier = std::sync::Barrier::new(8);
         let seed = crate::prng::mix(&[ctx.seed, ctx.shard, 0xA16]);
         let known = &known;
+        // the answers of this thread alone, for a fixed set of pairs: under concurrency every pair must get the same
+        // answer (the same unit, or the same refusal) - a refusal that appears only under load is a wrong answer too
+        let mut prng = Rng::new(crate::prng::mix(&[seed, 99]));
+        let fixed: Vec<(usize, usize)> = (0..3_000).map(|_| (prng.below(n), prng.below(n))).collect();
+        let answer = |a: &'static Unit, b: &'static Unit, is_mul: bool| -> Option<usize> {
+            let r = if is_mul { a * b } else { a / b };
+            r.ok().map(|u| u as *const Unit as usize)
+        };
+        let alone: Vec<(Option<usize>, Option<usize>)> = fixed.iter().map(|(i, j)| (answer(units[*i], units[*j], true), answer(units[*i], units[*j], false))).collect();
+        let (fixed, alone) = (&fixed, &alone);
         let bad: Vec<String> = std::thread::scope(|s| {
             let hs: Vec<_> = (0..8u64)
                 .map(|t| {
@@ -510,6 +520,36 @@ pub fn run_c16(ctx: &mut Ctx) {
                         let mut rng = Rng::new(crate::prng::mix(&[seed, t]));
                         let mut bad = Vec::new();
                         barrier.wait();
+                        // each thread walks the fixed pairs from a different starting point
+                        for step in 0..fixed.len() {
+                            let k = (step + t as usize * 371) % fixed.len();
+                            let (i, j) = fixed[k];
+                            for is_mul in [true, false] {
+                                let got = catch(|| { let r = if is_mul { units[i] * units[j] } else { units[i] / units[j] }; r.ok().map(|u| u as *const Unit as usize) }).unwrap_or(Some(usize::MAX));
+                                let want = if is_mul { alone[k].0 } else { alone[k].1 };
+                                if got != want {
+                                    bad.push(format!("{} {} {}: one thread alone gets {}, with 8 threads it gets {}", units[i].name(), if is_mul { '*' } else { '/' }, units[j].name(), if want.is_some() { "a unit" } else { "a refusal" }, if got == Some(usize::MAX) { "a panic" } else if got.is_some() { "a (different) unit" } else { "a refusal" }));
+                                }
+                            }
+                        }
+                        // ... then hammers a handful of pairs that do have an answer, in a tight loop (any shared "last
+                        // answer" slot is overwritten and read all the time)
+                        let hot: Vec<usize> = (0..fixed.len()).filter(|k| alone[*k].0.is_some() || alone[*k].1.is_some()).take(12).collect();
+                        if !hot.is_empty() {
+                            for step in 0..120_000usize {
+                                let k = hot[(step * 7 + t as usize * 5) % hot.len()];
+                                let (i, j) = fixed[k];
+                                let is_mul = alone[k].0.is_some();
+                                let got = catch(|| { let r = if is_mul { units[i] * units[j] } else { units[i] / units[j] }; r.ok().map(|u| u as *const Unit as usize) }).unwrap_or(Some(usize::MAX));
+                                let want = if is_mul { alone[k].0 } else { alone[k].1 };
+                                if got != want {
+                                    bad.push(format!("{} {} {} (asked over and over next to other products): alone it is {}, now {}", units[i].name(), if is_mul { '*' } else { '/' }, units[j].name(), if want.is_some() { "a unit" } else { "a refusal" }, if got == Some(usize::MAX) { "a panic" } else if got.is_some() { "a different unit" } else { "a refusal" }));
+                                    if bad.len() > 20 {
+                                        break;
+                                    }
+                                }
+                            }
+                        }
                         for _ in 0..20_000 {
                             let (a, b) = (units[rng.below(n)], units[rng.below(n)]);
                             for is_mul in [true, false] {
